@@ -26,11 +26,12 @@ RFC_PROPS = {
     "ATTENDEE": ("caladdr", ()), "CONTACT": ("text", ()), "ORGANIZER": ("caladdr", ()), "RECURRENCE-ID": ("datetime", ("date",)),
     "RELATED-TO": ("text", ()), "URL": ("uri", ()), "UID": ("text", ()),
     "EXDATE": ("dates", ("dates-date",)), "RDATE": ("dates", ("dates-date", "periods")), "RRULE": ("recur", ()),
+    "EXRULE": ("recur", ()),      # RFC 2445, deprecated by RFC 5545 but typed by the library and still written by producers
     "ACTION": ("text", ()), "REPEAT": ("int", ()), "TRIGGER": ("td", ("utc",)), "ACKNOWLEDGED": ("utc", ()),
     "CREATED": ("utc", ()), "DTSTAMP": ("utc", ()), "LAST-MODIFIED": ("utc", ()), "SEQUENCE": ("int", ()),
     "REQUEST-STATUS": ("text", ()),
 }
-MULTI_OK = ["ATTACH", "ATTENDEE", "COMMENT", "CONTACT", "EXDATE", "RDATE", "RRULE", "RELATED-TO", "RESOURCES", "CATEGORIES", "FREEBUSY",
+MULTI_OK = ["ATTACH", "ATTENDEE", "COMMENT", "CONTACT", "EXDATE", "RDATE", "RRULE", "EXRULE", "RELATED-TO", "RESOURCES", "CATEGORIES", "FREEBUSY",
             "DESCRIPTION", "TZNAME", "REQUEST-STATUS"]
 
 
